@@ -18,6 +18,40 @@ package debugger
 //@   ensures queued:       filters.SkipQueuedTx && c.MsgTxs[idx].IsQueued ==> !r
 //@   ensures checks:       filters.SkipChecks && c.MsgTxs[idx].IsCheck ==> !r
 
+// The parse step of one record. Records are parsed in order (the derived index is
+// exactly as long as the position being parsed); exactly one derived entry is
+// appended at that position, its time sum is the sum of the record's clocks, its
+// time diff is the distance to the previous entry's sum, and the error index gets
+// the position prepended exactly when an Err*-prefixed state or Exception is
+// active in the record's clocks (states beyond a short clock count as inactive).
+// Every positional read stays inside its slice.
+//@ pred RecActive(t *dbg.DbgMsgTx, index am.S, j int) := 0 <= j && j < len(index) && index(index, index[j]) < len(t.Clocks) && odd(t.Clocks[index(index, index[j])])
+//@ pred RecErr(t *dbg.DbgMsgTx, index am.S) := (exists j int :: 0 <= j && j < len(index) && prefix(index[j], "Err") && RecActive(t, index, j)) || (exists j int :: 0 <= j && j < len(index) && index[j] == "Exception" && RecActive(t, index, j))
+//@ fn RecSum(t *dbg.DbgMsgTx) int := u64(TSum(t.Clocks, len(t.Clocks)))
+//@ pred Backwards(c *Client, idx int) := idx > 0 && RecSum(c.MsgTxs[idx]) < RecSum(c.MsgTxs[idx - 1])
+//@ func (d *Debugger) hParseMsg(c *Client, idx int)
+//@   props C16
+//@   abstracts the log, graph and call-log collaborators and the calls into the debugger's own machine (made from one of its handlers, so they only queue) are trusted frames: they do not assign the record list, the derived index or the error index; StatesAdded / StatesRemoved are pinned to GetTransitionStates through the verified contracts of the two callees, StatesTouched is not specified
+//@   requires nn:    d != nil && d.Mach != nil && d.params != nil && c != nil && c.Client != nil && c.Client.Exportable != nil && c.MsgStruct != nil
+//@   requires order: 0 <= idx && idx < len(c.MsgTxs) && len(c.MsgTxsParsed) == idx
+//@   requires recs:  forall k int :: 0 <= k && k < len(c.MsgTxs) ==> c.MsgTxs[k] != nil
+//@   requires steps: forall k int :: 0 <= k && k < len(c.MsgTxs[idx].Steps) ==> c.MsgTxs[idx].Steps[k] != nil
+//@   requires parsed: forall k int :: 0 <= k && k < idx ==> c.MsgTxsParsed[k] != nil
+//@   requires locks: unlocked(d.Mach.activeStatesMx)
+//@   requires handler: d.Mach.queueProcessing
+//@   requires called: forall k int :: 0 <= k && k < len(c.MsgTxs[idx].CalledStatesIdxs) ==> c.MsgTxs[idx].CalledStatesIdxs[k] >= -1
+//@   assigns *
+//@   ensures stored:  len(c.MsgTxsParsed) == idx + 1 && c.MsgTxsParsed[idx] != nil
+//@   ensures kept:    forall k int :: 0 <= k && k < idx ==> c.MsgTxsParsed[k] == old(c.MsgTxsParsed[k])
+//@   ensures records: len(c.MsgTxs) == old(len(c.MsgTxs)) && (forall k int :: 0 <= k && k < len(c.MsgTxs) ==> c.MsgTxs[k] == old(c.MsgTxs[k]))
+//@   ensures sum:     c.MsgTxsParsed[idx].TimeSum == u64(TSum(c.MsgTxs[idx].Clocks, len(c.MsgTxs[idx].Clocks))) && c.MTimeSum == c.MsgTxsParsed[idx].TimeSum
+//@   ensures diff:    !Backwards(c, idx) ==> c.MsgTxsParsed[idx].TimeDiff == u64(c.MsgTxsParsed[idx].TimeSum - (idx > 0 ? old(c.MsgTxsParsed[idx - 1].TimeSum) : 0))
+//@   ensures err_yes: !Backwards(c, idx) && RecErr(c.MsgTxs[idx], c.MsgStruct.StatesIndex) ==> len(c.Errors) == old(len(c.Errors)) + 1 && c.Errors[0] == idx && (forall k int :: 0 <= k && k < old(len(c.Errors)) ==> c.Errors[k + 1] == old(c.Errors[k]))
+//@   ensures err_no:  Backwards(c, idx) || !RecErr(c.MsgTxs[idx], c.MsgStruct.StatesIndex) ==> seqeq(c.Errors, old(c.Errors))
+//@   loop 1 invariant acc: sum == u64(TSum(msgTx.Clocks, idx1))
+//@   loop 3 invariant found: isErr ==> (exists j int :: 0 <= j && j < len(index) && prefix(index[j], "Err") && RecActive(msgTx, index, j))
+//@   loop 3 invariant none:  !isErr ==> (forall j int :: 0 <= j && j < idx3 ==> !(prefix(index[j], "Err") && RecActive(msgTx, index, j)))
+
 //@ package github.com/pancsta/asyncmachine-go/tools/debugger/server
 //@ func (c *Client) TxExecutedBy(idx int) (r *dbg.DbgMsgTx)
 //@   trusted lookup of the transition that executed a queued mutation (reads the record list only)
@@ -26,3 +60,23 @@ package debugger
 //@ func (m *DbgMsgTx) CalledStateNames(statesIndex am.S) (r am.S)
 //@   trusted names of the called states of a record (reads the record only)
 //@   pure
+//@ package github.com/pancsta/asyncmachine-go/tools/debugger
+//@ func (d *Debugger) hParseMsgLog(c *Client, msgTx *dbg.DbgMsgTx, idx int)
+//@   trusted log extraction of one record: appends to the per-client log caches only (Client.LogMsgs, Client.LogReader), never to the record list, the derived index or the error index
+//@   assigns c.Client.LogMsgs, c.LogReader, c.logReaderMx
+//@ func (d *Debugger) appendCallLog(c *Client, msgTx *dbg.DbgMsgTx, msgTxParsed *types.MsgTxParsed) (err error)
+//@   trusted call-log file output (reads the record, writes a file)
+//@   assigns nothing
+//@ package github.com/pancsta/asyncmachine-go/pkg/machine
+//@ func (m *Machine) AddErr(err error, args A) (r Result)
+//@   trusted while the machine is processing its queue (the caller is one of its handlers) the Exception mutation is only queued: machine-internal fields; otherwise anything may change (handlers run)
+//@   assigns Machine.queue, Machine.queueLen, Machine.queueTicksPending, Machine.queueMx, Machine.logEntries
+//@   assigns * unless m.queueProcessing
+//@ func (m *Machine) Add1(state string, args A) (r Result)
+//@   trusted while the machine is processing its queue (the caller is one of its handlers) the mutation is only queued: machine-internal fields; otherwise anything may change (handlers run)
+//@   assigns Machine.queue, Machine.queueLen, Machine.queueTicksPending, Machine.queueMx, Machine.logEntries
+//@   assigns * unless m.queueProcessing
+//@ package github.com/pancsta/asyncmachine-go/pkg/graph
+//@ func (g *Graph) ParseMsg(id string, msgTx *dbg.DbgMsgTx)
+//@   trusted the network graph of the connected machines (its own vertices and edges); reads the record only
+//@   assigns nothing
